@@ -9,8 +9,9 @@ def readTimebase (v : Int) : Int := if v ≤ 48 then 48 else if v > 32767 then 3
 /-- `Track::new`: channel clamped to 0..15 -/
 def trackNewChannel (ch : Int) : Int := if ch < 0 then 0 else if ch > 15 then 15 else ch
 
-/-- `Song::change_cur_track` on the list of track channels: every missing track up to `no` is
-    materialised.  (The unchanged code gives all of them channel `no-1`; see C12.) -/
-def changeCurTrackLen (len no : Nat) : Nat := if len ≤ no then no + 1 else len
+/-- `Song::change_cur_track` on the number of tracks: the number is capped at 65534 (the SMF header counts tracks in 16 bits) and
+    every missing track up to it is materialised -/
+def changeCurTrackNo (no : Nat) : Nat := if no > 65534 then 65534 else no
+def changeCurTrackLen (len no : Nat) : Nat := if len ≤ changeCurTrackNo no then changeCurTrackNo no + 1 else len
 
 end Sakura
